@@ -263,3 +263,164 @@ def after_reads(p_steps, h_steps):
             bound.add(p_steps[k]["dst"])
         k += 1
     return p_steps[:k] + h_steps + p_steps[k:]
+
+
+# ---- wider alphabet (outside the Coq model; compared between runs only) ------------------------------------------------
+
+def touch_steps(rnd: random.Random, frame: str, cols, wide: bool, n0: int = 50):
+    """other work that DERIVES new frames from one of P's frames (and executes them) -- must leave P's frame as it was"""
+    uniq = [c for c in dict.fromkeys(cols) if cols.count(c) == 1]
+    if not uniq:
+        return []
+    c = rnd.choice(uniq)
+    out = []
+    k = n0
+    cands = ["where", "select"]
+    if wide:
+        cands += ["orderBy", "limit", "withColumn", "drop", "distinct", "groupby_count", "fillna_dict", "dropna", "withColumnRenamed"]
+    for kind in rnd.sample(cands, min(len(cands), 3 if wide else 2)):
+        dst = f"h{k}"
+        k += 1
+        if kind == "where":
+            out.append({"o": "H", "op": "where", "dst": dst, "src": frame, "col": {"q": None, "c": c}, "k": 1})
+        elif kind == "select":
+            out.append({"o": "H", "op": "select", "dst": dst, "src": frame, "cols": [{"q": None, "c": c}]})
+        else:
+            args = {"orderBy": {"cols": [c]}, "limit": {"n": 1}, "withColumn": {"new": "zz", "c": c}, "drop": {"cols": [c]},
+                    "distinct": {}, "groupby_count": {"by": [c]}, "fillna_dict": {"values": [[c, 0]]}, "dropna": {"cols": [c]},
+                    "withColumnRenamed": {"c": c, "new": "zz"}}[kind]
+            out.append({"o": "H", "op": "api", "dst": dst, "src": frame, "name": kind, "args": args})
+        out.append({"o": "H", "op": "collect", "src": dst})
+    return out
+
+
+def insert_before_actions(trace, frame, extra):
+    """put `extra` right before P's first action on `frame` (after the step that binds it)"""
+    for i, st in enumerate(trace):
+        if st["o"] == "P" and st.get("src") == frame and st["op"] in ("collect", "count", "show", "columns", "sqltext", "schema"):
+            return trace[:i] + extra + trace[i:]
+    return trace
+
+
+EXT_TABLE_COLS = dict(TBL_COLS)
+
+
+def gen_ext_program(rnd: random.Random):
+    """a program over the wider DataFrame API: set/dict-driven constructions, file reads, session.table"""
+    P = "P"
+    steps = []
+    cols = {}
+    n = [0]
+
+    def new():
+        h = f"p{n[0]}"
+        n[0] += 1
+        return h
+
+    def create(tbl):
+        d = new()
+        steps.append({"o": P, "op": "create", "dst": d, "tbl": tbl})
+        cols[d] = list(TBL_COLS[tbl])
+        return d
+    kind = rnd.choice(["ubn", "ubn", "ubn2", "agg", "na", "multi", "chain", "csv", "table"])
+    if kind in ("ubn", "ubn2"):
+        l, r = rnd.choice([("T1", "T3"), ("T2", "T5"), ("T1", "T5"), ("T4", "T3"), ("T2", "T3")])
+        a, b = create(l), create(r)
+        d = new()
+        steps.append({"o": P, "op": "unionbyname", "dst": d, "l": a, "r": b, "allow": True})
+        cols[d] = cols[a] + [c for c in cols[b] if c not in cols[a]]
+        if kind == "ubn2":
+            c3 = create(rnd.choice(["T3", "T5"]))
+            d2 = new()
+            steps.append({"o": P, "op": "unionbyname", "dst": d2, "l": c3, "r": d, "allow": True})
+            cols[d2] = cols[c3] + [c for c in cols[d] if c not in cols[c3]]
+            d = d2
+        last = d
+    elif kind == "agg":
+        a = create(rnd.choice(["T3", "T5"]))
+        cs = cols[a]
+        d = new()
+        steps.append({"o": P, "op": "api", "dst": d, "src": a, "name": "groupby_agg_dict",
+                      "args": {"by": cs[0], "aggs": [[cs[1], "max"], [cs[2], "min"]]}})
+        d2 = new()
+        steps.append({"o": P, "op": "api", "dst": d2, "src": a, "name": "agg_funcs",
+                      "args": {"by": [cs[0]], "aggs": [[cs[1], "sum"], [cs[2], "max"], [cs[1], "count"]]}})
+        steps.append({"o": P, "op": "collect", "src": d2})
+        steps.append({"o": P, "op": "sqltext", "src": d2})
+        last = d
+    elif kind == "na":
+        a = create(rnd.choice(["T1", "T3", "T5"]))
+        cs = cols[a]
+        d1, d2, d3, d4 = new(), new(), new(), new()
+        steps += [{"o": P, "op": "api", "dst": d1, "src": a, "name": "fillna_dict", "args": {"values": [[c, i] for i, c in enumerate(cs)]}},
+                  {"o": P, "op": "api", "dst": d2, "src": d1, "name": "dropna", "args": {"cols": cs[:2]}},
+                  {"o": P, "op": "api", "dst": d3, "src": d2, "name": "dropDuplicates", "args": {"cols": cs[-2:]}},
+                  {"o": P, "op": "api", "dst": d4, "src": d3, "name": "replace_dict", "args": {"map": [[1, 11], [3, 33]], "cols": cs[:2]}}]
+        last = d4
+    elif kind == "multi":
+        a, b = create("T1"), create("T4")
+        d = new()
+        steps.append({"o": P, "op": "join", "dst": d, "l": a, "r": b, "on": ["names", ["a", "b"]]})
+        d2 = new()
+        steps.append({"o": P, "op": "api", "dst": d2, "src": d, "name": "selectstar", "args": {}})
+        last = d2
+    elif kind == "chain":
+        a = create(rnd.choice(["T1", "T2", "T3", "T5"]))
+        cs = cols[a]
+        seq = [("withColumn", {"new": "n1", "c": cs[0]}), ("withColumnRenamed", {"c": cs[1], "new": "r1"}), ("drop", {"cols": [cs[0]]}),
+               ("distinct", {}), ("orderBy", {"cols": ["n1"]}), ("limit", {"n": 3}), ("toDF", None), ("select_exprs", None)]
+        cur, ccols = a, list(cs)
+        for nm, args in seq:
+            if rnd.random() < 0.35:
+                continue
+            if nm == "withColumn":
+                ccols = ccols + ["n1"]
+            elif nm == "withColumnRenamed":
+                ccols = ["r1" if c == cs[1] else c for c in ccols]
+            elif nm == "drop":
+                ccols = [c for c in ccols if c != cs[0]]
+            elif nm == "orderBy":
+                args = {"cols": [ccols[-1]]}
+            elif nm == "toDF":
+                args = {"names": [f"c{i}" for i in range(len(ccols))]}
+                ccols = list(args["names"])
+            elif nm == "select_exprs":
+                args = {"pairs": [[c, "x_" + c] for c in ccols]}
+                ccols = ["x_" + c for c in ccols]
+            d = new()
+            steps.append({"o": P, "op": "api", "dst": d, "src": cur, "name": nm, "args": args})
+            cur = d
+        last = cur
+    elif kind == "csv":
+        d1, d2, d3 = new(), new(), new()
+        steps += [{"o": P, "op": "csv", "dst": d1, "file": "F1", "chain": []},
+                  {"o": P, "op": "csv", "dst": d2, "file": "F3", "chain": [["option", "header", True]], "kw": {}},
+                  {"o": P, "op": "csv", "dst": d3, "file": "F3", "chain": [["options", {"header": False, "skip": 1}]], "kw": {}},
+                  {"o": P, "op": "collect", "src": d2}, {"o": P, "op": "collect", "src": d3}, {"o": P, "op": "columns", "src": d3}]
+        last = d1
+    else:
+        a = create(rnd.choice(["T1", "T2"]))
+        b = new()
+        steps.append({"o": P, "op": "alias", "dst": b, "src": a, "name": "x"})
+        steps.append({"o": P, "op": "view", "src": b, "name": "tv"})
+        d = new()
+        steps.append({"o": P, "op": "table", "dst": d, "view": "tv"})
+        d2 = new()
+        steps.append({"o": P, "op": "where", "dst": d2, "src": d, "col": {"q": None, "c": "a"}, "k": 1})
+        steps.append({"o": P, "op": "collect", "src": d2})
+        last = d
+    steps += [{"o": P, "op": "collect", "src": last}, {"o": P, "op": "columns", "src": last}, {"o": P, "op": "sqltext", "src": last}]
+    return steps, kind
+
+
+def py_independent(trace):
+    """the domain of the property, decided on the trace: P reads only its own frames and no view name the other work registers"""
+    hw = {st["name"] for st in trace if st["o"] == "H" and st["op"] == "view"}
+    for st in trace:
+        if st["o"] != "P":
+            continue
+        if any(x[0] != "p" for x in _reads(st)):
+            return False
+        if st["op"] in ("sql", "table") and st["view"] in hw:
+            return False
+    return True
